@@ -1,0 +1,169 @@
+// Copyright 2017 Pilosa Corp.
+//
+// Licensed under the Apache License, Version 2.0 (the "License");
+// you may not use this file except in compliance with the License.
+// You may obtain a copy of the License at
+//
+//     http://www.apache.org/licenses/LICENSE-2.0
+//
+// Unless required by applicable law or agreed to in writing, software
+// distributed under the License is distributed on an "AS IS" BASIS,
+// WITHOUT WARRANTIES OR CONDITIONS OF ANY KIND, either express or implied.
+// See the License for the specific language governing permissions and
+// limitations under the License.
+
+//go:build verif
+// +build verif
+
+package pilosa
+
+import (
+	"github.com/pilosa/pilosa/pql"
+)
+
+// Export shims for the verification harness (/verif, property C14). Add-only, tag-guarded.
+
+// VerifC14Frag is one BSI fragment (flag roaringFlagBSIv2) opened at a path.
+type VerifC14Frag struct{ f *fragment }
+
+// VerifC14OpenFragment opens a BSI fragment of the given shard at path. maxOpN > 0 overrides
+// fragment.MaxOpN (importValue takes the small-write path below it and the large path above).
+func VerifC14OpenFragment(path string, shard uint64, maxOpN int) (*VerifC14Frag, error) {
+	f := newFragment(path, "i", "f", viewBSIGroupPrefix+"f", shard, roaringFlagBSIv2)
+	f.CacheType = CacheTypeNone
+	if maxOpN > 0 {
+		f.MaxOpN = maxOpN
+	}
+	if err := f.Open(); err != nil {
+		return nil, err
+	}
+	return &VerifC14Frag{f: f}, nil
+}
+
+// Close closes the fragment.
+func (v *VerifC14Frag) Close() error { return v.f.Close() }
+
+// SetMaxOpN changes fragment.MaxOpN.
+func (v *VerifC14Frag) SetMaxOpN(n int) { v.f.MaxOpN = n }
+
+// SetValue is fragment.setValue.
+func (v *VerifC14Frag) SetValue(col uint64, depth uint, val int64) (bool, error) {
+	return v.f.setValue(col, depth, val)
+}
+
+// ClearValue is fragment.clearValue.
+func (v *VerifC14Frag) ClearValue(col uint64, depth uint, val int64) (bool, error) {
+	return v.f.clearValue(col, depth, val)
+}
+
+// ImportValue is fragment.importValue.
+func (v *VerifC14Frag) ImportValue(cols []uint64, vals []int64, depth uint, clear bool) error {
+	return v.f.importValue(cols, vals, depth, clear)
+}
+
+// Value is fragment.value.
+func (v *VerifC14Frag) Value(col uint64, depth uint) (int64, bool, error) {
+	return v.f.value(col, depth)
+}
+
+func verifC14Op(op string) pql.Token {
+	switch op {
+	case "==":
+		return pql.EQ
+	case "!=":
+		return pql.NEQ
+	case "<":
+		return pql.LT
+	case "<=":
+		return pql.LTE
+	case ">":
+		return pql.GT
+	case ">=":
+		return pql.GTE
+	}
+	return pql.ILLEGAL
+}
+
+// Range is fragment.rangeOp; op is one of == != < <= > >=.
+func (v *VerifC14Frag) Range(op string, depth uint, pred int64) ([]uint64, error) {
+	r, err := v.f.rangeOp(verifC14Op(op), depth, pred)
+	if err != nil {
+		return nil, err
+	}
+	return r.Columns(), nil
+}
+
+// Between is fragment.rangeBetween.
+func (v *VerifC14Frag) Between(depth uint, lo, hi int64) ([]uint64, error) {
+	r, err := v.f.rangeBetween(depth, lo, hi)
+	if err != nil {
+		return nil, err
+	}
+	return r.Columns(), nil
+}
+
+// NotNull is fragment.notNull.
+func (v *VerifC14Frag) NotNull() ([]uint64, error) {
+	r, err := v.f.notNull()
+	if err != nil {
+		return nil, err
+	}
+	return r.Columns(), nil
+}
+
+func verifC14Filter(cols []uint64, use bool) *Row {
+	if !use {
+		return nil
+	}
+	return NewRow(cols...)
+}
+
+// Sum is fragment.sum; the filter is nil unless useFilter.
+func (v *VerifC14Frag) Sum(filter []uint64, useFilter bool, depth uint) (int64, uint64, error) {
+	return v.f.sum(verifC14Filter(filter, useFilter), depth)
+}
+
+// Min is fragment.min.
+func (v *VerifC14Frag) Min(filter []uint64, useFilter bool, depth uint) (int64, uint64, error) {
+	return v.f.min(verifC14Filter(filter, useFilter), depth)
+}
+
+// Max is fragment.max.
+func (v *VerifC14Frag) Max(filter []uint64, useFilter bool, depth uint) (int64, uint64, error) {
+	return v.f.max(verifC14Filter(filter, useFilter), depth)
+}
+
+// VerifC14BaseValue is bsiGroup.baseValue on a group with the given base and bit depth.
+func VerifC14BaseValue(base int64, depth uint, op string, value int64) (int64, bool) {
+	b := &bsiGroup{Name: "f", Type: bsiGroupTypeInt, Base: base, BitDepth: depth}
+	return b.baseValue(verifC14Op(op), value)
+}
+
+// VerifC14BaseValueBetween is bsiGroup.baseValueBetween.
+func VerifC14BaseValueBetween(base int64, depth uint, lo, hi int64) (int64, int64, bool) {
+	b := &bsiGroup{Name: "f", Type: bsiGroupTypeInt, Base: base, BitDepth: depth}
+	return b.baseValueBetween(lo, hi)
+}
+
+// VerifC14BitDepth is bitDepth.
+func VerifC14BitDepth(v uint64) uint { return bitDepth(v) }
+
+// VerifC14BitDepthInt64 is bitDepthInt64.
+func VerifC14BitDepthInt64(v int64) uint { return bitDepthInt64(v) }
+
+// VerifC14ForceBSI sets base and bit depth of an int field that holds no data yet, so that the
+// executor and the field API can be driven with every (base, depth) combination; fields created
+// through the API always start with base 0.
+func VerifC14ForceBSI(f *Field, base int64, depth uint) error {
+	bsig := f.bsiGroup(f.name)
+	if bsig == nil {
+		return ErrBSIGroupNotFound
+	}
+	f.mu.Lock()
+	defer f.mu.Unlock()
+	bsig.Base = base
+	bsig.BitDepth = depth
+	f.options.Base = base
+	f.options.BitDepth = depth
+	return f.saveMeta()
+}
